@@ -10,6 +10,7 @@ def build(u):
     o = Src.get("cln_plugin/options.rs")
     u.raw("use vstd::prelude::*;\nverus! {\n")
     u.env("prelude.rs")
+    u.env("std_extra.rs")
     u.canary_decls()
     u.env("anyhow.rs")
     u.env("optread_env.rs")
